@@ -158,10 +158,10 @@ def make_scenario_files(sc, workdir):
     files, refs = {}, []
     files[BYSTANDER] = bytes(rng.randrange(256) for _ in range(rng.randrange(1, 200)))
     # a neighbour whose name starts like the database's (an operator's copy, the other database of a `<db>` / `<db>.usage`
-    # pair): never a temporary file of the server, must stay untouched like any other neighbour
+    # pair; three of the names have the SHAPE of a mkstemp name - eight characters of [a-z0-9_]): never a temporary file of the server, must stay untouched like any other neighbour
     rng2 = random.Random(sc["subseed"] ^ 0xb157a)
     if rng2.random() < 0.6:
-        files[DB + rng2.choice([".orig", ".usage", ".bak", ".old-1", ".tmp"])] = \
+        files[DB + rng2.choice([".orig", ".usage", ".bak", ".old-1", ".tmp", ".usage_db", ".20260930", ".bak_2024"])] = \
             bytes(rng2.randrange(256) for _ in range(rng2.randrange(1, 200)))
     cls, schema = sc["cls"], sc["schema"]
     tmp = os.path.join(workdir, "build.sqlite")
@@ -455,7 +455,7 @@ def eval_scenario(args):
             ob.add_ref(r)
         if DB in files and files[DB]:
             ob.add_ref(files[DB])
-        desc0, shas0, infos0, _ = ob.directory(tmpl, {})
+        desc0, shas0, infos0, _ = ob.directory(tmpl, {}, initial=set(files))
         exp = expect_class(sc)
         if sc["cls"] == "trunc":
             info0 = infos0.get(DB)
